@@ -190,7 +190,7 @@ Definition write_table (o : wopts) (rows : list (list (list (list wrun)))) : str
           | c :: cs => (cell_text o c ++ sconcat (map (fun x => " | " ++ cell_text o x) cs))%string
           end in
         ("**" ++ line hdr ++ "**
-" ++ sconcat (map (fun row => line row ++ "
+" ++ sconcat (map (fun row => str (escape_block_start (chars (line row))) ++ "
 ") body) ++ "
 ")%string
   end.
